@@ -18,6 +18,8 @@ from .scen import US
 
 TUNS = ["10.9.0.1/24", "10.9.0.1/24", "10.9.0.5/28", "172.20.1.1/16", "10.9.0.1/29", "10.9.0.2/30",
         "10.0.0.1/8", "192.168.77.129/27", "10.9.0.14/28", "10.9.0.6/29"]
+# the server in the middle / at the end of the block of addresses it hands out (all 16 slots in use)
+CROWD_TUNS = ["10.9.0.16/27", "10.9.0.17/27", "10.9.0.15/27", "10.9.0.8/24", "172.20.0.16/16", "10.9.0.1/24", "192.168.77.145/27", "10.9.0.18/24"]
 CMDS = ["I", "S", "O", "N", "R", "P", "data", "rawlogin", "rawdata", "rawping"]
 LOGINS = ["L_replay", "L_other", "L_bitflip", "L_pm1", "L_short", "L_wrongpw", "L_truncdigest", "L_relatedpw"]
 
@@ -26,7 +28,7 @@ def gen_cfg(rng, idx):
     pw = bytes(rng.choice(range(1, 256)) for _ in range(rng.choice([1, 3, 6, 8, 16, 31, 32, 32])))
     if rng.random() < 0.4:
         pw = rng.choice([b"secret", b"x", b"correct horse battery staple!!!", b"\xff" * 32, b"pass word", b"Two Words", b"tab\there", b"MiXeD case 123"])
-    return {"tun": TUNS[idx % len(TUNS)] if idx < 2 * len(TUNS) else rng.choice(TUNS),
+    cfg = {"tun": TUNS[idx % len(TUNS)] if idx < 2 * len(TUNS) else rng.choice(TUNS),
             "check_ip_off": rng.random() < 0.4,
             "password_hex": pw.hex(),
             "nops": rng.randint(35, 90),
@@ -36,6 +38,10 @@ def gen_cfg(rng, idx):
             "pw_stdin": rng.random() < 0.3 and b"\n" not in pw and b"\0" not in pw and pw.strip() == pw and len(pw) <= 32,
             "jail": rng.random() < 0.25,
             "rseed": rng.getrandbits(32)}
+    if idx % 8 == 5:
+        # a full house: every slot of a 16-slot pool taken before the history starts
+        cfg.update(tun=CROWD_TUNS[(idx // 8) % len(CROWD_TUNS)], crowd=True)
+    return cfg
 
 
 class Party:
@@ -91,6 +97,18 @@ def run_history(tag, cfg, seed, nops=None):
     # start with two sessions so that there is always something to attack
     _join(H, "l")
     _join(H, rng.choice(["v", "l", "raw"]))
+    if cfg.get("crowd"):
+        for _c in range(14):
+            _join(H, rng.choice(["l", "l", "l", "raw"]))
+        # everybody talks to the server and to a neighbour once
+        live = [p for p in H.parties if p.role == "legit" and p.stage in ("l", "raw")]
+        for p in live:
+            _send_up(H, p, _frame(H, p.mc.tun_ip, H.server_tun_ip))
+        for p in live[::3]:
+            o = rng.choice(live)
+            if o is not p:
+                _send_up(H, p, _frame(H, p.mc.tun_ip, o.mc.tun_ip))
+                o.mc.pump(300000, 60000)
     weights = (["join"] * 3 + ["join_same_ip"] * 2 + ["legit"] * 6 + ["down"] * 3 + ["attack"] * 10 + ["login_attack"] * 5 +
                ["advance"] * 3 + ["raw_stream"] * 1 + ["reuse"] * 2 + ["down_odd"] * 2 + ["raw_shadow"] * 2)
     for _ in range(n):
